@@ -30,7 +30,10 @@ G_BLOCK = {"<start>": ["<block>"], "<block>": ["(<items>)"], "<items>": ["<item>
 G_EPS = {"<start>": ["<list>"], "<list>": ["", "<item><list>"], "<item>": ["a", "b", "<n>"], "<n>": ["7", "42"]}
 G_ROWS = {"<start>": ["<rows>"], "<rows>": ["<row>", "<row>;<rows>"], "<row>": ["<field>", "<field>,<row>"],
           "<field>": ["a", "b"]}
-GRAMMARS = {"assgn": G_ASSGN, "num": G_NUM, "lrec": G_LREC, "block": G_BLOCK, "eps": G_EPS, "rows": G_ROWS}
+G_D34 = {"<start>": ["<d>"], "<d>": ["3", "4"]}
+GRAMMARS = {"assgn": G_ASSGN, "num": G_NUM, "lrec": G_LREC, "block": G_BLOCK, "eps": G_EPS, "rows": G_ROWS,
+            "d34": G_D34}
+PROBE_ONLY = {"d34"}     # used by fixed probes only (the generated stream does not draw from it)
 # nonterminals deriving only numerals (str.to.int may be applied to these, as the spec requires)
 NUMERIC = {"assgn": ["<digit>"], "num": ["<num>", "<digit>"], "lrec": [], "block": [], "eps": ["<n>"], "rows": []}
 # alternative start symbols (start_symbol=...)
@@ -214,9 +217,18 @@ def kinds_of(f, acc=None):
             kinds_of(x, acc)
     elif k == "sp":
         acc.add("sp:" + f[1])
+    elif k in ("forallint", "existsint"):
+        acc.add(k)
+        kinds_of(f[2], acc)
     else:
         acc.add(k)
     return acc
+
+
+def has_numq(ast):
+    """numeric quantifiers: outside satb's decided fragment (no_numq); the constraint of such an
+    instance is judged by spec_sem.py (bounded search over numerals), the tree by Coq"""
+    return bool({"forallint", "existsint"} & kinds_of(ast))
 
 
 # --------------------------------------------------------------------------
@@ -270,6 +282,12 @@ def build(f):
         return L.ConjunctiveFormula(*[build(x) for x in f[1]])
     if k == "or":
         return L.DisjunctiveFormula(*[build(x) for x in f[1]])
+    if k in ("forallint", "existsint"):
+        cls = L.ForallIntFormula if k == "forallint" else L.ExistsIntFormula
+        return cls(L.BoundVariable(f[1], L.Variable.NUMERIC_NTYPE), build(f[2]))
+    if k == "countv":      # count(tree var, "<nt>", numeric variable)
+        return L.SemanticPredicateFormula(COUNT_PREDICATE, mk_var(f[1]), f[2],
+                                          L.BoundVariable(f[3], L.Variable.NUMERIC_NTYPE))
     if k in ("forall", "exists"):
         _, bv, in_var, mexpr, body = f
         cls = L.ForallFormula if k == "forall" else L.ExistsFormula
@@ -299,6 +317,10 @@ def unparse(f):
         return f[1] + "(" + ", ".join(a[1][0] if a[0] == "var" else '"' + a[1] + '"' for a in f[2]) + ")"
     if k == "count":
         return f'count({f[1][0]}, "{f[2]}", "{f[3]}")'
+    if k == "countv":
+        return f'count({f[1][0]}, "{f[2]}", {f[3]})'
+    if k in ("forallint", "existsint"):
+        return f"{k[:-3]} int {f[1]}: ({unparse(f[2])})"
     if k == "not":
         return "not (" + unparse(f[1]) + ")"
     if k in ("and", "or"):
@@ -534,7 +556,7 @@ def gen_exists_and(rng, gname, g, root_type, counter):
 
 
 def gen_instance(rng, idx, budget, max_solutions):
-    gname = rng.choice(list(GRAMMARS))
+    gname = rng.choice([x for x in GRAMMARS if x not in PROBE_ONLY])
     g = GRAMMARS[gname]
     start_symbol = rng.choice(ALT_START[gname]) if rng.random() < 0.2 else None
     root_type = start_symbol or "<start>"
@@ -646,6 +668,24 @@ def probe_instances(budget, max_solutions):
                         "settings": {"free": free, "smt": free, "opt": True, "unique": True, "methods": 7,
                                      "start_symbol": None, "unsat": False},
                         "seed": 3000 + j, "budget": budget * 3, "max_solutions": 20})
+    # numeric quantifiers (outside satb: the constraint is judged by spec_sem.py, numerals < tree size + 3)
+    dd, rr = ("x", "<d>"), ("r", "<rows>")
+    ivar = lambda n: ("var", (n, "NUM"))
+    num_probes = [
+        # the recorded defect K_forall_int (unsatisfiable; solve() returns 4, 4, 3, 3)
+        ("d34", ("forallint", "i", ("or", [("toint", ("CLt", "<"), ivar("i"), 2),
+                                           ("exists", dd, S, None, ("toint2", ("CEq", "="), ("var", dd), ivar("i")))]))),
+        # exists int: must be SOUND
+        ("rows", ("existsint", "n", ("and", [("countv", S, "<field>", "n"), ("toint", ("CEq", "="), ivar("n"), 3)]))),
+        ("rows", ("existsint", "n", ("and", [("countv", S, "<row>", "n"), ("toint", ("CGe", ">="), ivar("n"), 2)]))),
+        ("rows", ("forall", rr, S, None,
+                  ("existsint", "n", ("and", [("countv", rr, "<row>", "n"), ("toint", ("CLe", "<="), ivar("n"), 2)])))),
+    ]
+    for j, (gname, ast) in enumerate(num_probes):
+        out.append({"idx": f"q{j}", "gname": gname, "ast": ast, "how": "concrete",
+                    "settings": {"free": 5, "smt": 5, "opt": True, "unique": j % 2 == 1, "methods": 7,
+                                 "start_symbol": None, "unsat": False},
+                    "seed": 4000 + j, "budget": budget * 2, "max_solutions": 12})
     return out
 
 
@@ -671,7 +711,8 @@ def instance_defs(k, job):
     return (f"Definition G{k} : grammar := {g_grammar(cg)}.\n"
             f"Definition S{k} : str := {g_str(root)}.\n"
             f"Definition C{k} : var := {g_var('start', root)}.\n"
-            f"Definition F{k} : cform := {g_formula(job['ast'], geff)}.\n")
+            f"Definition F{k} : cform := "
+            + ("FSmt (SBool true)" if has_numq(job["ast"]) else g_formula(job["ast"], geff)) + ".\n")
 
 
 def py_spec(job, tree):
@@ -680,7 +721,7 @@ def py_spec(job, tree):
     import spec_sem
     geff = effective_grammar(job["gname"], job["settings"]["start_symbol"])
     try:
-        return bool(spec_sem.sat(build(job["ast"]), tree, geff))
+        return bool(spec_sem.sat(build(job["ast"]), tree, geff, bound=max(12, len(tree.paths()) + 3)))
     except Exception as e:  # noqa
         return "undefined:" + type(e).__name__
 
@@ -723,6 +764,13 @@ def class_of(job, tree, code, spec_fails, known_by_class):
     """class of an open known finding that explains this failing tree, or None.
     code = sol_check bit mask; spec_fails = spec_sem.py also says the constraint is violated."""
     kinds = kinds_of(job["ast"])
+    if has_numq(job["ast"]):
+        # numeric quantifiers: Coq judged the tree only (code 0), spec_sem.py the constraint.
+        # K_forall_int = the constraint contains a `forall int` quantifier (Coq: KClasses.K_forall_int);
+        # a violated constraint with `exists int` only is in no class and alarms.
+        if code == 0 and spec_fails and "forallint" in kinds and "K_forall_int" in known_by_class:
+            return "K_forall_int"
+        return None
     if code == 16 and spec_fails:
         if "sp:nth" in kinds and "K_nth" in known_by_class:
             return "K_nth"
@@ -992,7 +1040,8 @@ def run(run):
     run.cov["spec_sem_undefined"] = py_undef
     # trees that fail in Coq for a reason other than bit 16 are not visible to spec_sem; trees that
     # fail bit 16 must fail in spec_sem too and vice versa
-    disagree = [x for x in (py_fail - coq_fail)]
+    # (instances with numeric quantifiers are judged by spec_sem only: Coq gets the trivial constraint)
+    disagree = [x for x in (py_fail - coq_fail) if not has_numq(jobs[x[0]]["ast"])]
     run.cov["disagreements_checked"] = len(coq_fail | py_fail)
 
     # ---- classification ----
@@ -1023,7 +1072,9 @@ def run(run):
             code = coq_code(job, lit) if len(unknown) < 5 else None
         entry = {"job": job, "solution_index": si, "tree": res["solutions"][si],
                  "string": str(tree_from_json(res["solutions"][si])), "code": code,
-                 "failed": [v for b, v in FAIL_BITS.items() if code and code & b],
+                 "failed": [v for b, v in FAIL_BITS.items() if code and code & b]
+                           + (["constraint not satisfied (spec_sem.py; instance with numeric quantifiers)"]
+                              if has_numq(job["ast"]) and (ji, si) in py_fail else []),
                  "spec_sem": (ji, si) not in py_fail, "all_failing_indices": sis,
                  "solutions": [str(tree_from_json(x)) for x in res["solutions"]]}
         cls = class_of(job, tree_from_json(res["solutions"][si]), code, (ji, si) in py_fail, known_by_class)
@@ -1081,7 +1132,16 @@ def run(run):
     if not proof_ok:
         run.violation({"kind": "proof obligation failed", "problems": run.proof_problems,
                        "obligation": "Props/C01.v"}, found_input=False)
+    numq_jobs = [ji for ji, j in enumerate(jobs) if has_numq(j["ast"])]
+    run.cov["numeric_quantifier_instances"] = {
+        "instances": len(numq_jobs),
+        "trees": sum(len(results[ji]["solutions"]) for ji in numq_jobs),
+        "note": "satb decides no numeric quantifiers (no_numq): for these instances Coq checks shape, grammar "
+                "validity, closedness and root label of every tree (sol_check with the trivial constraint) and the "
+                "constraint is judged by harness/spec_sem.py with numerals 0..tree size+2 (a bounded SEARCH: a "
+                "falsified `forall int` / a satisfied `exists int` verdict is definite)"}
     run.cov["trusted_base"] = lib.TRUSTED_BASE_COMMON + [
+        "constraints with numeric quantifiers (4 fixed probes) are judged by spec_sem.py, not by satb in Coq",
         "C01 theorems are about an ABSTRACT transition system (Solver/Rules.v) over-approximating "
         "ISLaSolver.solve(); premises H_smt, H_sem, H_insert, H_numq, H_infeasible are hypotheses of "
         "solve_sound_partial; the tie to /repo is the runtime verified check of outputs, not a step-by-step "
